@@ -12,7 +12,8 @@
 //! `dist run` appends
 //!     ` => bgf=<5 f32 bits> sf=<bits*count,...> minp=<f64 bits> pv=<f64 bits,...>
 //!          sc=<f32 bits>:<f64 bits>,... sx=<p bits>:<f32 bits>:<f64 bits>,...`
-//!          sm=<p bits>:<f32 bits>,...
+//!          sm=<p bits>:<f32 bits>,... sk=<i32>,... us=<idx>:<f32 bits>,...
+//!   sk: `scale(score)` of every `pr` probe; us: `unscale(idx)` for the `si` indices and 0, 1, len-1, len;
 //!   sf: run-length encoded table; sc/sx: score(p) and pvalue(score(p)); `P` marks a panic;
 //!   sm: `Distribution<f32>::sample` (feature `sampling`) driven by a StdRng seeded from the table length and
 //!       the number of probes; p is what `Uniform::new_inclusive(0.0, 1.0)` draws from a clone of that
@@ -213,16 +214,38 @@ fn run_case_a<A: Alphabet>(f: &std::collections::HashMap<String, String>) -> Str
             sm.push(format!("{}:{}", p.to_bits(), show_f32(s)));
         }
     }
+    // the public helpers scale / unscale, called directly: scale on every pvalue probe, unscale on the table
+    // indices of `si` plus 0, 1, len-1, len (what score() can hand to it)
+    let sk: Vec<String> = u32s(&f["pr"])
+        .iter()
+        .map(|&b| match no_panic(|| dist.scale(f32::from_bits(b))) {
+            Some(v) => v.to_string(),
+            None => "P".to_string(),
+        })
+        .collect();
+    let mut us_idx: Vec<i32> = vec![0, 1, sf.len() as i32 - 1, sf.len() as i32];
+    if let Some(si) = f.get("si") {
+        for tok in si.split(',').filter(|t| !t.is_empty() && *t != "-") {
+            let (a, _) = tok.split_once(':').unwrap();
+            us_idx.push((a.parse::<usize>().unwrap() % sf.len()) as i32);
+        }
+    }
+    let us: Vec<String> = us_idx
+        .iter()
+        .map(|&i| format!("{}:{}", i, show_f32(no_panic(|| dist.unscale(i)))))
+        .collect();
     let dash = |v: Vec<String>| if v.is_empty() { "-".to_string() } else { v.join(",") };
     format!(
-        "bgf={} sf={} minp={} pv={} sc={} sx={} sm={}",
+        "bgf={} sf={} minp={} pv={} sc={} sx={} sm={} sk={} us={}",
         bgf.join(","),
         rle.join(","),
         minp,
         dash(pv),
         dash(sc),
         dash(sx),
-        dash(sm)
+        dash(sm),
+        dash(sk),
+        dash(us)
     )
 }
 
